@@ -253,9 +253,123 @@ def c09e(ctx):
             ctx.fail(o, pops[0], "staged operations are popped without `epoch <= flushed epoch`")
 
 
+UNORDERED_TY = re.compile(r"BinaryHeap<|HashMap<|HashSet<|DashMap<|DashSet<|hash_map::|hash_set::|binary_heap::")
+ACC_READ = re.compile(r"::(remove|insert|contains|contains_key|get|take|replace|pop)$")
+ACC_WRITE = re.compile(r"::(remove|insert|push|push_back|extend|clear|pop|retain)$")
+
+
+def order_sensitive_folds(prog, crates):
+    """Loops over an unordered collection (hash containers, BinaryHeap::iter) whose body branches on the
+    result of reading/updating a loop-carried accumulator and then updates an accumulator: the result of
+    such a fold depends on the iteration order."""
+    out = []
+    examined = 0
+    for b in prog.all_bodies(crates):
+        for lp in df.iter_loops(b):
+            # is the iterated source an unordered collection?
+            unordered = False
+            for o in lp.src:
+                if o.kind == "call":
+                    for a in o.site.node["args"][:1]:
+                        l = op_local(a)
+                        if l is not None and UNORDERED_TY.search(b.locals[l]["ty"]):
+                            unordered = True
+                    if UNORDERED_TY.search(o.callee() or "") and re.search(r"::(iter|keys|values|drain|into_iter)$", o.callee() or ""):
+                        unordered = True
+            tyl = op_local(lp.head.node["args"][0])
+            if tyl is not None and UNORDERED_TY.search(b.locals[tyl]["ty"]):
+                unordered = True
+            if not unordered:
+                continue
+            examined += 1
+            reg = lp.region()
+
+            def loop_carried(site):
+                # receiver is a local (or a reference to one) that is assigned before the loop
+                os_ = df.origins_of_operand(b, site.node["args"][0])
+                for x in os_:
+                    if x.kind in ("call", "agg") and x.site is not None and x.site.bb not in reg and b.site_dominates(x.site, lp.head):
+                        return True
+                return False
+            reads = [s for s in b.calls() if s.bb in reg and ACC_READ.search(s.node["fn"]["path"]) and s.node["args"] and loop_carried(s)]
+            writes = [s for s in b.calls() if s.bb in reg and ACC_WRITE.search(s.node["fn"]["path"]) and s.node["args"] and loop_carried(s)]
+            for r in reads:
+                for sb in df.switches(b):
+                    if sb not in reg or not b.bb_dominates(r.bb, sb):
+                        continue
+                    os_ = df.origins_of_operand(b, b.blocks[sb]["term"]["op"], extra_transparent=[(r"core::ops::bit::Not::not$", None), (r"core::option::Option::<[^>]*>::(is_some|is_none)$", [0])])
+                    if not any(x.kind == "call" and x.site == r for x in os_):
+                        continue
+                    # a write to an accumulator on only one side of the branch
+                    edges = df.switch_edges(b, sb)
+                    sides = []
+                    for v, tb in edges:
+                        rr = b.reachable([tb], removed_nodes=[sb, lp.head.bb])
+                        sides.append(frozenset(w for w in writes if w.bb in rr and w != r))
+                    if len(set(sides)) > 1:
+                        out.append((b, lp, r, sb))
+    return out, examined
+
+
+def c09f(ctx):
+    prog = ctx.prog
+    o = ctx.ob("C09.f", "staging-overlay/no-order-sensitive-fold-over-unordered-iteration", "K4+K5",
+               "no fold whose updates depend on the accumulator's state iterates a collection without a defined order (heap / hash iteration)")
+    hits, examined = order_sensitive_folds(prog, ["qbice_storage", "qbice"])
+    o.sites = examined
+    if examined < 10:
+        ctx.fail(o, "(program)", "only %d loops over unordered collections examined (expected >= 10)" % examined)
+    for b, lp, r, sb in hits:
+        ctx.touch(b)
+        oo = ctx.ob("C09.f", "order-sensitive-fold/%s" % b.name, "K4+K5", o.desc)
+        oo.sites = 1
+        ctx.fail(oo, r, "%s folds an unordered iteration (line %d) with an update that depends on what was folded before (%s decides which accumulator is written): the result depends on "
+                 "the container's internal order — for the key-of-set staging overlay a remove/insert pair replayed in the wrong order makes a present element look absent" % (
+                     b.name, lp.head.line, r.node["fn"]["path"].rsplit("::", 1)[-1]))
+    # the overlay is replayed in issue order: sorted by (epoch, sequence) before folding
+    o2 = ctx.ob("C09.f", "get_snapshot/replay-in-issue-order", "K5", "the staging overlay replays the staged operations sorted by (epoch, issue sequence)")
+    b = ctx.touch(prog.body("ConcurrentLog::get_snapshot"))
+    sorts = b.calls_to(r"::sort(_unstable)?_by_key$|::sort(_unstable)?_by$|::into_sorted_vec$")
+    o2.sites = len(sorts)
+    loops = [lp for lp in df.iter_loops(b)]
+    if len(sorts) != 1 or not loops:
+        ctx.fail(o2, Site(b, 0, 0), "get_snapshot does not sort the staged operations before replaying them")
+    else:
+        # the fold loop iterates the sorted vector
+        fold = [lp for lp in loops if any(s.bb in lp.region() for s in b.calls_to(r"HashSet::<T, S(, A)?>::(insert|remove)$"))]
+        if len(fold) != 1 or not b.site_dominates(sorts[0], fold[0].head):
+            ctx.fail(o2, sorts[0], "the overlay fold does not run after the sort")
+        else:
+            src = {x.site for x in fold[0].src if x.kind == "call"}
+            sorted_src = {x.site for x in df.origins_of_operand(b, sorts[0].node["args"][0]) if x.kind == "call"}
+            if not (src & sorted_src):
+                ctx.fail(o2, fold[0].head, "the overlay fold iterates something other than the sorted operations")
+        cl = [c for c in prog.find(r"^ConcurrentLog::get_snapshot::\{closure#\d+\}$")]
+        keyed = False
+        for c in cl:
+            ap = []
+            for bi in c.live_blocks:
+                for st in c.blocks[bi]["stmts"]:
+                    if st["k"] == "assign":
+                        ap.append(str(st["rv"]))
+            txt = " ".join(ap)
+            if "f:epoch" in txt and "f:sequence" in txt:
+                keyed = True
+        if not keyed:
+            ctx.fail(o2, sorts[0], "the sort key is not (epoch, sequence): operations of one batch (equal epochs) would be replayed in arbitrary order")
+    # every staged operation gets a fresh sequence number
+    ap = ctx.touch(prog.body("CacheKeyOfSetMap::apply_op"))
+    vo = ap.aggregates(r"key_of_set_map::cache::VersionedOperation$")
+    if len(vo) == 1:
+        f = vo[0].node["rv"]["fields"]
+        if "sequence" not in f or not any(x.kind == "call" and (x.callee() or "").endswith("fetch_add") for x in df.origins_of_operand(ap, vo[0].node["rv"]["ops"][f.index("sequence")])):
+            ctx.fail(o2, vo[0], "staged operations are not stamped with an issue sequence number")
+
+
 def run(ctx):
     ctx.run_clause("C09.a", c09a)
     ctx.run_clause("C09.b", c09b)
     ctx.run_clause("C09.c", c09c)
     ctx.run_clause("C09.d", c09d)
     ctx.run_clause("C09.e", c09e)
+    ctx.run_clause("C09.f", c09f)
